@@ -13,6 +13,9 @@ Round 5 (hunt): SetEvaluationLimits' case analysis follows the value actually
 stored (maxiter= / maxfun= spellings included; repair 834de84); only a solver
 with a decorated objective is ever marked live outside the decorators (repair
 03c2d04).
+Round 6: the count compared with the evaluation limit is the counter cell; a
+monitor swap does not move the generation count; a time limit of 0 is a limit
+(no default on truth value).
 NOT decided: that Solve returns for every cost, the size of the
 evaluation overshoot.
 """
@@ -753,3 +756,56 @@ def only_a_decorated_solver_is_marked_live(ctx):
     if n == 0:        # the hack is gone: nothing outside the decorators marks a solver live
         for k_ in range(2):
             ctx.ok('no-forced-live#%d' % k_, 'no function outside the _decorate_objective family stores <solver>._live = True', ctx.func(AS + '.Step'), ctx.func(AS + '.Step').node)
+
+
+@rule('C05.o', min_instances=5)
+def the_compared_count_is_the_number_of_calls(ctx):
+    """Terminated compares `evaluations` with the evaluation limit: the property getters read the solver's own counter cell and log (shared with C04.c) - a getter that answers with the length of the evaluation monitor counts the records of a monitor that was attached with data in it (SetEvaluationLimits(evaluations=25, new=True) then allows 25 + the old records)"""
+    from .c04 import getters_read_counter_and_log
+    getters_read_counter_and_log(ctx)
+
+
+@rule('C05.p', min_instances=5)
+def a_monitor_swap_does_not_move_the_generation_count(ctx):
+    """the generation limit bounds the total: installing a generation monitor - also the very monitor already in use, also mid-run on a solver that logs lazily (Powell) - leaves `generations` at the number of completed iterations (protocol simulation shared with C04.l)"""
+    from .c04 import monitor_swap_keeps_the_generation_count
+    monitor_swap_keeps_the_generation_count(ctx)
+
+
+@rule('C05.q', min_instances=1)
+def a_time_limit_of_zero_is_a_limit(ctx):
+    """TimeLimits(seconds): the limit the predicate compares the elapsed time with is the caller's own `seconds` (its total_seconds() / abs()); it is replaced by "no limit" (inf) only behind a test that the value IS None. A default decided by truthiness (`if not seconds`) turns the legal limits 0, 0.0 and timedelta(0) into "never": the solver iterates on although `elapsed >= 0` holds from the start"""
+    f = ctx.func('mystic.termination:TimeLimits')
+    p0 = f.args()[0]
+    n = 0
+    for st in stmts_of(f.node):
+        if not isinstance(st, ast.Assign):
+            continue
+        tg = st.targets[0]
+        base = tg.value if isinstance(tg, ast.Subscript) else tg
+        if not (isinstance(base, ast.Name) and base.id == 'delta'):
+            continue
+        consts = [x for x in ast.walk(st.value) if isinstance(x, ast.Name) and x.id == 'inf'] + \
+                 [x for x in ast.walk(st.value) if isinstance(x, ast.Call) and unparse(x).replace('"', "'") == "float('inf')"]
+        if not consts:
+            continue
+        n += 1
+        gs = guards_of(st)
+
+        def is_none_test(t_, tr):
+            t_ = t_
+            while isinstance(t_, ast.UnaryOp) and isinstance(t_.op, ast.Not):
+                t_, tr = t_.operand, not tr
+            return isinstance(t_, ast.Compare) and len(t_.ops) == 1 and isinstance(t_.comparators[0], ast.Constant) and t_.comparators[0].value is None and \
+                ((isinstance(t_.ops[0], ast.Is) and tr) or (isinstance(t_.ops[0], ast.IsNot) and not tr))
+
+        def truthiness(t_):
+            while isinstance(t_, ast.UnaryOp) and isinstance(t_.op, ast.Not):
+                t_ = t_.operand
+            if isinstance(t_, ast.BoolOp):
+                return any(truthiness(v) for v in t_.values)
+            return (isinstance(t_, ast.Name) and t_.id == p0) or (isinstance(t_, ast.Subscript) and isinstance(t_.value, ast.Name) and t_.value.id == 'delta')
+        ctx.check(any(is_none_test(t_, tr) for t_, tr, _ in gs) and not any(truthiness(t_) for t_, tr, _ in gs), 'TimeLimits#no-limit', '"no limit" only where the value is None',
+                  'TimeLimits replaces the limit by inf under the test(s) %s: a limit of 0 (or 0.0, timedelta(0)) is falsy and becomes "never", so the solver keeps iterating although elapsed >= 0 holds'
+                  % [' '.join(unparse(t_).split()) for t_, tr, _ in gs], f, st)
+    ctx.need(n >= 1, 'TimeLimits: the "no limit" default is not found')
